@@ -160,3 +160,27 @@ def targeted_programs():
                         {"op": opn, "lw": 1, "wells": W([0, 2] if name != "two-columns" else [1, 3]), "tips": T([3, 5]), "vols": {"k": "l", "x": [7, 9]}, "lc": "Trough", "label": None}]
             progs.append(h)
     return progs
+
+
+def rounding_programs():
+    """Script commands with volumes that have a third decimal (unit 1/1000 microlitre, third decimal never 5): the command text
+    carries two decimals, the labware is booked with exactly what was asked for."""
+    progs = []
+    W = lambda rows, col=0: {"k": "l", "x": [[rw, col] for rw in rows]}
+    T = lambda ns: [["int", n] for n in ns]
+    lws = lambda: [gen.mk_plate("plate", 8, 3, 0, 3000000, [1500000] * 24), gen.mk_trough("trough", 4, 2, 0, 5000000, [2500000, 2500000])]
+    cases = [
+        ("thirds", W([0, 1, 2]), T([1, 2, 3]), {"k": "l", "x": [33333, 12344, 4]}),
+        ("tiny", W([4, 6], 1), T([5, 7]), {"k": "l", "x": [6, 10001]}),
+        ("uniform", W([0, 1, 2, 3], 2), T([1, 2, 3, 4]), {"k": "s", "x": 66667}),
+    ]
+    for name, wells, tips, vols in cases:
+        h = gen.header(f"evo/rounding-{name}", "evo", Fraction(1, 1000), 950000, lws(), flags={"comp": False, "norm": False})
+        h["millis"] = True
+        h["ops"] = [{"op": "evo_aspirate", "lw": 0, "wells": wells, "tips": tips, "vols": vols, "lc": "Water", "label": "a"},
+                    {"op": "evo_dispense", "lw": 0, "wells": wells, "tips": tips, "vols": vols, "lc": "Water", "label": "d"},
+                    # all tips of the second command meet in one real well of the trough: the deviations would add up
+                    {"op": "evo_aspirate", "lw": 1, "wells": W([0, 1, 2, 3], 1), "tips": T([1, 2, 3, 4]), "vols": {"k": "s", "x": 33333}, "lc": "T", "label": None},
+                    {"op": "evo_dispense", "lw": 1, "wells": W([0, 1, 2, 3]), "tips": T([1, 2, 3, 4]), "vols": {"k": "l", "x": [4, 4, 4, 4]}, "lc": "T", "label": None}]
+        progs.append(h)
+    return progs
